@@ -62,11 +62,11 @@ def gen_abstract(rng):
     return items, variables
 
 
-def denote(items, variables):
+def denote(items, variables, size=4096):
     """the documented meaning: instruction i at address i; variables downward from 4095 in declaration order,
     elements ascending; every label/variable resolves to its address."""
     addr = {}
-    top = 4095
+    top = size - 1
     mem = {}
     for nm, vals in variables:
         top -= len(vals)
@@ -216,4 +216,22 @@ def oracle(c, prop):
         fails.append(Failure("oracle", prop, f"assembled image {sorted(got.items())[:8]} differs from the documented placement {sorted(mem.items())[:8]} -- text {c.meta['text']!r}", "toyasm:image"))
     elif d.get("max") != str(maxpc):
         fails.append(Failure("oracle", prop, f"max_pc {d.get('max')} != {maxpc}", "toyasm:maxpc"))
+    if not fails:
+        # "the top of memory" is the top of THIS machine's memory: the same text on a machine built with another size
+        from architecture_simulator.simulation.toy_simulation import ToySimulation
+        ndata = sum(len(v) for _, v in variables)
+        for size in (1024, 300):
+            if len(words) + ndata > size:
+                continue
+            words2, mem2, _ = denote(items, variables, size)
+            sim = ToySimulation(unified_memory_size=size)
+            try:
+                sim.load_program(c.meta["text"])
+            except Exception as e:
+                fails.append(Failure("oracle", prop, f"on a machine with {size} words the well-formed program is rejected ({type(e).__name__}) -- text {c.meta['text']!r}", "toyasm:custom-size"))
+                break
+            got2 = {int(a): int(v) for a, v in sim.state.memory.memory_file.items() if int(v)}
+            if got2 != {k: v for k, v in mem2.items() if v}:
+                fails.append(Failure("oracle", prop, f"on a machine with {size} words the data is not placed downward from address {size - 1} -- text {c.meta['text']!r}", "toyasm:custom-size"))
+                break
     return fails
